@@ -5497,9 +5497,13 @@ class State:
             )
             hole_card_statuses += (False,) * count
 
-            self._verify_cards_consumption(
-                set(hole_cards) - set(self.hole_cards[player_index]),
-            )
+            new_cards = list(filter(None, hole_cards))
+
+            for card in self.hole_cards[player_index]:
+                if card in new_cards:
+                    new_cards.remove(card)
+
+            self._verify_cards_consumption(new_cards)
 
         if cards is None or hole_cards is None or hole_card_statuses is None:
             assert (
